@@ -1,13 +1,887 @@
-//! C01 — (not built yet)
-#![allow(unused_imports, unused_variables, dead_code)]
+//! C01 — text tape mirrors the document's structure regardless of layout
+//! (+ the text half of C06: structural soundness, + the text-tape part of C19: truncation).
+//!
+//! ops (answered by the model as well):
+//!   ttape <hex>                 `ok <tape> bom:<0|1>` | `err:eof` | `err:syntax` | `err:stack`
+//!   ttapeoff <hex>              same with scalars as `<kind>@<offset>+<len>`
+//!   tfaith <hex> <tape>         = ttape; L3: the real tape equals the expected tape in the case line
+//!   tlay <hexA> <hexB> <hexC>   `eq:<0|1> <result of C>`; L3: the three tapes are equal
+//!   treuse <hexPrev> <hex>      = ttape of <hex>, parsed into a tape that held <hexPrev> before; L3: == fresh
+//!   split|splitfb <hex>         `<scalar len> <rest len>`; L3: split == splitfb
+//!   quote|quotefb <hex>         `<scalar len> <rest len>` | `err`; L3: quote == quotefb
+//!   wftext <hex>                `wf:<0|1>` | `err`; L3: independent structural check of the real tape
+//!   tcut <hex>                  for every prefix length 0..=n `ok:<ntokens>` | `err`, comma separated;
+//!                               L3: every successful prefix parse is consistent with the full parse
+#![allow(dead_code)]
 use crate::common::*;
+use crate::docgen::*;
+use crate::show;
+use jomini::verif_hooks as hooks;
+use jomini::{TextTape, TextToken};
 
-pub fn gen(g: &mut Gen) {}
+// ---------------------------------------------------------------------------------------
+// running the real code
 
-pub fn exec(w: &[&str], obs: &mut Obs) -> Option<String> {
+fn err_kind(e: &jomini::Error) -> &'static str {
+    match e.kind() {
+        jomini::ErrorKind::Eof => "err:eof",
+        jomini::ErrorKind::StackEmpty { .. } => "err:stack",
+        jomini::ErrorKind::InvalidSyntax { .. } => "err:syntax",
+        _ => "err:other",
+    }
+}
+
+fn tape_line(d: &[u8], offsets: bool) -> String {
+    match TextTape::from_slice(d) {
+        Ok(t) => {
+            let body = if offsets { show::text_tape_offsets(d, t.tokens()) } else { show::text_tape(t.tokens()) };
+            format!("ok {} bom:{}", body, t.utf8_bom() as u8)
+        }
+        Err(e) => err_kind(&e).to_string(),
+    }
+}
+
+fn count_tape(obs: &mut Obs, d: &[u8]) {
+    match TextTape::from_slice(d) {
+        Ok(t) => {
+            obs.count("tape:ok");
+            if t.utf8_bom() {
+                obs.count("tape:bom");
+            }
+            let mut depth = 0usize;
+            let mut maxd = 0usize;
+            for tok in t.tokens() {
+                let k = match tok {
+                    TextToken::Array { mixed, .. } => { depth += 1; if *mixed { "tok:array-mixed" } else { "tok:array" } }
+                    TextToken::Object { mixed, .. } => { depth += 1; if *mixed { "tok:object-mixed" } else { "tok:object" } }
+                    TextToken::MixedContainer => "tok:mixed-container",
+                    TextToken::Unquoted(_) => "tok:unquoted",
+                    TextToken::Quoted(_) => "tok:quoted",
+                    TextToken::Parameter(_) => "tok:parameter",
+                    TextToken::UndefinedParameter(_) => "tok:undef-parameter",
+                    TextToken::Operator(_) => "tok:operator",
+                    TextToken::End(_) => { depth = depth.saturating_sub(1); "tok:end" }
+                    TextToken::Header(_) => "tok:header",
+                };
+                maxd = maxd.max(depth);
+                obs.count(k);
+            }
+            obs.count(&format!("depth:{}", maxd.min(6)));
+            obs.count(&format!("ntok:{}", match t.tokens().len() { 0 => "0", 1..=4 => "1-4", 5..=16 => "5-16", 17..=64 => "17-64", _ => "65+" }));
+        }
+        Err(e) => obs.count(&format!("tape:{}", err_kind(&e))),
+    }
+}
+
+// ---------------------------------------------------------------------------------------
+// C06: independent structural check of a real tape (L3 oracle of `wftext`)
+
+/// Returns the first structural defect found, `None` when the tape is sound.
+pub fn structural_defect(input: &[u8], toks: &[TextToken]) -> Option<String> {
+    let n = toks.len();
+    // links both ways, no index 0
+    for (i, t) in toks.iter().enumerate() {
+        match t {
+            TextToken::Array { end, .. } | TextToken::Object { end, .. } => {
+                if *end == 0 { return Some(format!("container at {} has end 0", i)); }
+                if *end <= i || *end >= n { return Some(format!("container at {} has end {} (len {})", i, end, n)); }
+                if toks[*end] != TextToken::End(i) { return Some(format!("container at {}: toks[{}] is not End({})", i, end, i)); }
+            }
+            TextToken::End(j) => {
+                if *j == 0 { return Some(format!("End at {} has index 0", i)); }
+                if *j >= i { return Some(format!("End at {} points forward to {}", i, j)); }
+                match &toks[*j] {
+                    TextToken::Array { end, .. } | TextToken::Object { end, .. } if *end == i => {}
+                    _ => return Some(format!("End at {}: toks[{}] does not point back", i, j)),
+                }
+            }
+            _ => {}
+        }
+    }
+    // proper nesting: no two container intervals cross (quadratic on purpose: not the stack pass of the model)
+    let spans: Vec<(usize, usize)> = toks.iter().enumerate().filter_map(|(i, t)| match t {
+        TextToken::Array { end, .. } | TextToken::Object { end, .. } => Some((i, *end)),
+        _ => None,
+    }).collect();
+    if spans.len() <= 3000 {
+        for (a, &(i, e)) in spans.iter().enumerate() {
+            for &(i2, e2) in &spans[a + 1..] {
+                if i2 > e { break; }
+                if i2 < e && e2 > e { return Some(format!("containers [{},{}] and [{},{}] cross", i, e, i2, e2)); }
+            }
+        }
+    }
+    // every End is the end of some container is covered above; every index between is covered by spans.
+    // scalars: sub-slices of the input, strictly increasing start
+    let base = input.as_ptr() as usize;
+    let mut prev: Option<usize> = None;
+    for (i, t) in toks.iter().enumerate() {
+        if let Some(s) = t.as_scalar() {
+            let p = s.as_bytes().as_ptr() as usize;
+            let l = s.as_bytes().len();
+            if p < base || p + l > base + input.len() { return Some(format!("scalar at {} is not inside the input", i)); }
+            let off = p - base;
+            if let Some(q) = prev { if off <= q { return Some(format!("scalar at {} starts at {} <= previous start {}", i, off, q)); } }
+            prev = Some(off);
+        }
+    }
     None
 }
 
+// ---------------------------------------------------------------------------------------
+// C19: prefix consistency (L3 oracle of `tcut`)
+
+/// flat view of one top-level group: (tag, offset, len); containers contribute their start tag
+/// (with the mixed flag), End contributes "E".
+fn flat(input: &[u8], toks: &[TextToken]) -> Vec<(String, usize, usize)> {
+    let base = input.as_ptr() as usize;
+    toks.iter().map(|t| {
+        let sc = |tag: &str, s: &jomini::Scalar| (tag.to_string(), (s.as_bytes().as_ptr() as usize).wrapping_sub(base), s.as_bytes().len());
+        match t {
+            TextToken::Array { mixed, .. } => (format!("A{}", *mixed as u8), 0, 0),
+            TextToken::Object { mixed, .. } => (format!("O{}", *mixed as u8), 0, 0),
+            TextToken::MixedContainer => ("M".into(), 0, 0),
+            TextToken::Operator(o) => (format!("Op:{}", show::op_name(*o)), 0, 0),
+            TextToken::End(_) => ("E".into(), 0, 0),
+            TextToken::Unquoted(s) => sc("U", s),
+            TextToken::Quoted(s) => sc("Q", s),
+            TextToken::Parameter(s) => sc("P", s),
+            TextToken::UndefinedParameter(s) => sc("N", s),
+            TextToken::Header(s) => sc("H", s),
+        }
+    }).collect()
+}
+
+/// split a tape into top-level groups (a container with everything up to its End is one group)
+fn groups(toks: &[TextToken]) -> Option<Vec<(usize, usize)>> {
+    let mut out = vec![];
+    let mut i = 0;
+    while i < toks.len() {
+        match &toks[i] {
+            TextToken::Array { end, .. } | TextToken::Object { end, .. } => {
+                if *end <= i || *end >= toks.len() { return None; }
+                out.push((i, *end + 1));
+                i = *end + 1;
+            }
+            _ => { out.push((i, i + 1)); i += 1; }
+        }
+    }
+    Some(out)
+}
+
+/// `Some(reason)` when the tape of the prefix `full[..k]` is not consistent with the tape of `full`.
+fn prefix_inconsistent(full: &[u8], k: usize, pt: &[TextToken], ft: &[TextToken]) -> Option<String> {
+    let (pg, fg) = match (groups(pt), groups(ft)) { (Some(a), Some(b)) => (a, b), _ => return Some("unsound tape".into()) };
+    if pg.len() > fg.len() { return Some(format!("prefix has {} top-level groups, the document {}", pg.len(), fg.len())); }
+    let pf = |r: (usize, usize)| flat(full, &pt[r.0..r.1]);
+    let ff = |r: (usize, usize)| flat(full, &ft[r.0..r.1]);
+    for (gi, r) in pg.iter().enumerate() {
+        let a = pf(*r);
+        let b = ff(fg[gi]);
+        if gi + 1 < pg.len() {
+            if a != b { return Some(format!("completed top-level group {} differs", gi)); }
+            continue;
+        }
+        // the last group: equal, or a cut version
+        if a == b { break; }
+        let mut a2 = a.clone();
+        let is_container = a2[0].0.starts_with('A') || a2[0].0.starts_with('O');
+        if is_container { a2.pop(); } // the auto-close End
+        if a2.len() > b.len() { return Some("cut group is longer than the original".into()); }
+        for (j, x) in a2.iter().enumerate() {
+            let y = &b[j];
+            let last = j + 1 == a2.len();
+            let container_start = j == 0 && is_container;
+            if x == y { continue; }
+            if container_start && (y.0.starts_with('A') || y.0.starts_with('O')) { continue; } // kind/mixed of the cut container may change
+            let scalarish = |t: &str| t == "U" || t == "H";
+            // the value being cut: same start; either the same bytes (only the kind changes: a scalar becomes a
+            // header through the `{` behind the cut) or a proper prefix that reaches the cut
+            if last && scalarish(&x.0) && scalarish(&y.0) && x.1 == y.1 && (x.2 == y.2 || (x.2 < y.2 && x.1 + x.2 == k)) { continue; }
+            return Some(format!("token {} of the cut group differs: {:?} vs {:?}", j, x, y));
+        }
+    }
+    // nothing reaches beyond the cut
+    for t in pt {
+        if let Some(s) = t.as_scalar() {
+            let off = (s.as_bytes().as_ptr() as usize).wrapping_sub(full.as_ptr() as usize);
+            if off + s.as_bytes().len() > k { return Some("scalar extends beyond the cut".into()); }
+        }
+    }
+    None
+}
+
+// ---------------------------------------------------------------------------------------
+// expected tape of a document: independent transcription (faithfulness oracle)
+
+#[derive(Clone, Debug, PartialEq)]
+pub enum ET { A(usize, bool), O(usize, bool), E(usize), M, U(Vec<u8>), Q(Vec<u8>), P(Vec<u8>), N(Vec<u8>), H(Vec<u8>), Op(Op) }
+
+pub fn et_string(ts: &[ET]) -> String {
+    if ts.is_empty() { return "-".into(); }
+    ts.iter().map(|t| match t {
+        ET::A(e, m) => format!("A{}{}", if *m { "m" } else { "" }, e),
+        ET::O(e, m) => format!("O{}{}", if *m { "m" } else { "" }, e),
+        ET::E(i) => format!("E{}", i),
+        ET::M => "M".to_string(),
+        ET::U(b) => format!("U:{}", hex(b)),
+        ET::Q(b) => format!("Q:{}", hex(b)),
+        ET::P(b) => format!("P:{}", hex(b)),
+        ET::N(b) => format!("N:{}", hex(b)),
+        ET::H(b) => format!("H:{}", hex(b)),
+        ET::Op(o) => format!("Op:{}", o.name()),
+    }).collect::<Vec<_>>().join(",")
+}
+
+#[derive(Default)]
+pub struct TapeBuilder { pub out: Vec<ET> }
+impl TapeBuilder {
+    fn leaf(&mut self, l: &Leaf) {
+        let (b, q) = leaf_text(l);
+        if q { self.out.push(ET::Q(b[1..b.len() - 1].to_vec())); } else { self.out.push(ET::U(b)); }
+    }
+    pub fn field(&mut self, f: &Field) {
+        // ghost `{}` in key position leave no trace
+        self.leaf(&f.key);
+        if f.op != Op::Eq { self.out.push(ET::Op(f.op)); }
+        self.value(&f.val, true);
+    }
+    fn is_empty_container(n: &Node) -> bool {
+        matches!(n, Node::Arr(v) if v.is_empty()) || matches!(n, Node::Obj(v) if v.is_empty())
+    }
+    /// `in_object`: value position of a field (a scalar directly followed by `{` is a header there);
+    /// in an array the same bytes are a plain scalar followed by a container.
+    fn value(&mut self, n: &Node, in_object: bool) {
+        match n {
+            Node::Leaf(l) => self.leaf(l),
+            Node::Header(h, body) => {
+                self.out.push(if in_object { ET::H(h.clone()) } else { ET::U(h.clone()) });
+                self.value(body, false);
+            }
+            Node::Rgb(r, g, b, a) => {
+                self.out.push(if in_object { ET::H(b"rgb".to_vec()) } else { ET::U(b"rgb".to_vec()) });
+                let i = self.out.len();
+                self.out.push(ET::A(0, false));
+                for c in [Some(*r), Some(*g), Some(*b), *a].iter().flatten() { self.out.push(ET::U(c.to_string().into_bytes())); }
+                let e = self.out.len();
+                self.out[i] = ET::A(e, false);
+                self.out.push(ET::E(i));
+            }
+            Node::Obj(fs) if fs.is_empty() => { let i = self.out.len(); self.out.push(ET::A(i + 1, false)); self.out.push(ET::E(i)); }
+            Node::Obj(fs) => {
+                let i = self.out.len();
+                self.out.push(ET::O(0, false));
+                for f in fs { self.field(f); }
+                let e = self.out.len();
+                self.out[i] = ET::O(e, false);
+                self.out.push(ET::E(i));
+            }
+            Node::Arr(vs) => {
+                let i = self.out.len();
+                self.out.push(ET::A(0, false));
+                // empty `{}` at the very start of a container are ghosts (the parser cannot know the kind yet)
+                let mut leading = true;
+                for v in vs {
+                    if leading && Self::is_empty_container(v) { continue; }
+                    leading = false;
+                    self.value(v, false);
+                }
+                let e = self.out.len();
+                self.out[i] = ET::A(e, false);
+                self.out.push(ET::E(i));
+            }
+            Node::Mixed(fs, rest) => {
+                let i = self.out.len();
+                self.out.push(ET::O(0, true));
+                for f in fs { self.field(f); }
+                self.out.push(ET::M);
+                for v in rest { self.value(v, false); }
+                let e = self.out.len();
+                self.out[i] = ET::O(e, true);
+                self.out.push(ET::E(i));
+            }
+        }
+    }
+}
+
+pub fn tape_of(doc: &Doc) -> Vec<ET> {
+    let mut b = TapeBuilder::default();
+    for f in &doc.fields { b.field(f); }
+    b.out
+}
+
+/// `?=` / `!=` on the FIRST field of a nested container (the ParseOpen peek has to look at two
+/// bytes for these); counted so that the evidence shows the generator reaches it.
+pub fn has_first_field_operator(doc: &Doc) -> bool {
+    fn field(f: &Field) -> bool { node(&f.val) }
+    fn fields(fs: &[Field]) -> bool {
+        fs.first().map_or(false, |f| matches!(f.op, Op::Ne | Op::Exists)) || fs.iter().any(field)
+    }
+    fn node(n: &Node) -> bool {
+        match n {
+            Node::Leaf(_) | Node::Rgb(..) => false,
+            Node::Obj(fs) => fields(fs),
+            Node::Arr(vs) => vs.iter().any(node),
+            Node::Header(_, b) => node(b),
+            Node::Mixed(fs, rest) => fields(fs) || rest.iter().any(node),
+        }
+    }
+    doc.fields.iter().any(field)
+}
+
+/// `b{ .. }` as the first field of a nested container is lexically an array `[b, {..}]`; the
+/// optional `=` is therefore only a layout choice from the second field on.  Returns the number
+/// of fields changed.
+pub fn normalise(doc: &mut Doc) -> usize {
+    fn fields(fs: &mut [Field], nested: bool) -> usize {
+        let mut n = 0;
+        for (i, f) in fs.iter_mut().enumerate() {
+            if nested && i == 0 && f.implicit_eq { f.implicit_eq = false; n += 1; }
+            n += node(&mut f.val);
+        }
+        n
+    }
+    fn node(nd: &mut Node) -> usize {
+        match nd {
+            Node::Leaf(_) | Node::Rgb(..) => 0,
+            Node::Obj(fs) => fields(fs, true),
+            Node::Arr(vs) => vs.iter_mut().map(node).sum(),
+            Node::Header(_, b) => node(b),
+            Node::Mixed(fs, rest) => fields(fs, true) + rest.iter_mut().map(node).sum::<usize>(),
+        }
+    }
+    fields(&mut doc.fields, false)
+}
+
+// ---------------------------------------------------------------------------------------
+// documents with parameter blocks and variables (lexemes + expected tape)
+
+/// A document as a lexeme list plus its expected tape.  Parameter openers `[[x]` / `[[!x]` and the
+/// closing `]` travel as `Lex::Scalar(.., true)` so that the layout keeps them in one piece.
+pub struct LexDoc { pub lex: Vec<Lex>, pub tape: Vec<ET>, pub first_field_op: bool }
+
+fn plain_key(rng: &mut Rng) -> Vec<u8> { rng.pick(&KEY_POOL).as_bytes().to_vec() }
+
+fn shift(ts: Vec<ET>, by: usize) -> Vec<ET> {
+    ts.into_iter().map(|t| match t { ET::A(e, m) => ET::A(e + by, m), ET::O(e, m) => ET::O(e + by, m), ET::E(i) => ET::E(i + by), o => o }).collect()
+}
+
+fn append_fields(out: &mut LexDoc, fs: &[Field]) {
+    for f in fs {
+        let d = Doc { fields: vec![f.clone()] };
+        out.lex.extend(lexemes(&d));
+        let t = shift(tape_of(&d), out.tape.len());
+        out.tape.extend(t);
+    }
+}
+
+/// `[[x] key op value … ]` (object form) or `[[x] value ]` (value form) at the current position
+fn append_param_block(rng: &mut Rng, cfg: &DocCfg, out: &mut LexDoc) {
+    let undefined = rng.chance(1, 3);
+    let name = plain_key(rng);
+    let mut opener = if undefined { b"[[!".to_vec() } else { b"[[".to_vec() };
+    opener.extend_from_slice(&name);
+    opener.push(b']');
+    out.lex.push(Lex::Scalar(opener, true));
+    out.tape.push(if undefined { ET::N(name) } else { ET::P(name) });
+    if rng.chance(1, 4) {
+        // value form
+        let v = plain_key(rng);
+        out.lex.push(Lex::Scalar(v.clone(), false));
+        out.tape.push(ET::U(v));
+        out.lex.push(Lex::Scalar(b"]".to_vec(), true));
+        return;
+    }
+    let i = out.tape.len();
+    out.tape.push(ET::O(0, false));
+    let n = 1 + rng.size(2);
+    let mut fs: Vec<Field> = (0..n).map(|_| {
+        let mut d = gen_doc(rng, &DocCfg { max_fields: 0, ..cfg.clone() });
+        while d.fields.is_empty() { d = gen_doc(rng, cfg); }
+        d.fields.truncate(1);
+        normalise(&mut d);
+        d.fields.pop().unwrap()
+    }).collect();
+    // the first key is read with split_at_scalar whatever it starts with: keep it a plain unquoted key
+    fs[0].key = Leaf::Unq(plain_key(rng));
+    fs[0].ghosts = 0;
+    if fs.iter().any(|f| has_first_field_operator(&Doc { fields: vec![f.clone()] })) { out.first_field_op = true; }
+    append_fields(out, &fs);
+    let e = out.tape.len();
+    out.tape[i] = ET::O(e, false);
+    out.tape.push(ET::E(i));
+    out.lex.push(Lex::Scalar(b"]".to_vec(), true));
+}
+
+/// documents with parameter blocks at top level and as the first thing inside a container
+pub fn gen_param_doc(rng: &mut Rng, cfg: &DocCfg) -> LexDoc {
+    let mut out = LexDoc { lex: vec![], tape: vec![], first_field_op: false };
+    let mut pre = gen_doc(rng, cfg);
+    normalise(&mut pre);
+    pre.fields.truncate(2);
+    out.first_field_op |= has_first_field_operator(&pre);
+    append_fields(&mut out, &pre.fields);
+    if rng.chance(1, 2) {
+        append_param_block(rng, cfg, &mut out);
+    } else {
+        // key = { [[x] … ] more fields }
+        let k = plain_key(rng);
+        out.lex.push(Lex::Scalar(k.clone(), false));
+        out.lex.push(Lex::Op(Op::Eq));
+        out.lex.push(Lex::Open);
+        out.tape.push(ET::U(k));
+        let i = out.tape.len();
+        out.tape.push(ET::O(0, false));
+        append_param_block(rng, cfg, &mut out);
+        let mut more = gen_doc(rng, cfg);
+        normalise(&mut more);
+        more.fields.truncate(2);
+        out.first_field_op |= has_first_field_operator(&more);
+        append_fields(&mut out, &more.fields);
+        out.lex.push(Lex::Close);
+        let e = out.tape.len();
+        out.tape[i] = ET::O(e, false);
+        out.tape.push(ET::E(i));
+    }
+    let mut post = gen_doc(rng, cfg);
+    normalise(&mut post);
+    post.fields.truncate(2);
+    out.first_field_op |= has_first_field_operator(&post);
+    append_fields(&mut out, &post.fields);
+    out
+}
+
+fn gen_lexdoc(g: &mut Gen) -> LexDoc {
+    let cfg = DocCfg::text_full();
+    if g.rng.chance(1, 6) {
+        g.count("doc:param-block");
+        return gen_param_doc(&mut g.rng, &cfg);
+    }
+    let mut doc = gen_doc(&mut g.rng, &cfg);
+    let changed = normalise(&mut doc);
+    if changed > 0 { g.count("doc:first-field-implicit-eq-normalised"); }
+    let first_field_op = has_first_field_operator(&doc);
+    g.count("doc:plain");
+    LexDoc { lex: lexemes(&doc), tape: tape_of(&doc), first_field_op }
+}
+
+// ---------------------------------------------------------------------------------------
+// generators
+
+fn scalar_pool(g: &mut Gen) -> Vec<u8> {
+    // unquoted-looking byte strings of every length 1..40, with a boundary somewhere or nowhere
+    let len = g.rng.range(1, 40);
+    let mut v: Vec<u8> = (0..len).map(|_| match g.rng.below(20) {
+        0 => *g.rng.pick(b"!?;@\"\\'"),
+        1 => *g.rng.pick(&[0xe9u8, 0xff, 0x80, 0x0b, 0x0c, 0x08, 0x00]),
+        _ => b'a' + g.rng.below(26) as u8,
+    }).collect();
+    if g.rng.chance(1, 2) {
+        let p = g.rng.below(v.len());
+        v[p] = *g.rng.pick(b"\t\n\x0b\x0c\r !#<=>[]{}");
+    }
+    v
+}
+
+fn quoted_pool(g: &mut Gen) -> Vec<u8> {
+    let len = g.rng.below(41);
+    let mut v = vec![b'"'];
+    for _ in 0..len {
+        match g.rng.below(16) {
+            0 => v.push(b'\\'),
+            1 => v.extend_from_slice(b"\\\""),
+            2 => v.extend_from_slice(b"\\\\"),
+            _ => v.push(b'a' + g.rng.below(26) as u8),
+        }
+    }
+    if g.rng.chance(5, 6) { v.push(b'"'); }
+    v
+}
+
+fn gen_hooks(g: &mut Gen, n: usize) {
+    // every single byte at every position of a 1..=40 byte scalar followed by 0..=40 trailing bytes (sampled)
+    for _ in 0..n {
+        let mut s = scalar_pool(g);
+        let trailing = g.rng.below(41);
+        for _ in 0..trailing { s.push(if g.rng.chance(1, 10) { *g.rng.pick(b" =}!\x0b") } else { b'x' }); }
+        g.count("hook:split");
+        g.emit(format!("split {}", hex(&s)));
+        g.emit(format!("splitfb {}", hex(&s)));
+        let mut q = quoted_pool(g);
+        let trailing = g.rng.below(41);
+        for _ in 0..trailing { q.push(if g.rng.chance(1, 8) { *g.rng.pick(b"\"\\ ") } else { b'y' }); }
+        g.count("hook:quote");
+        g.emit(format!("quote {}", hex(&q)));
+        g.emit(format!("quotefb {}", hex(&q)));
+    }
+    // exhaustive: one special byte at each position 0..36 of a 37..=53 byte run, all 256 bytes at three positions
+    for b in 0..=255u8 {
+        for pos in [0usize, 1, 15, 16, 17, 31, 32, 33] {
+            let mut s = vec![b'a'; pos];
+            s.push(b);
+            s.extend_from_slice(&[b'a'; 20]);
+            g.emit(format!("split {}", hex(&s)));
+        }
+    }
+    for pos in 0..36 {
+        for total in [pos + 1, pos + 2, pos + 16, pos + 17, pos + 18] {
+            for special in [b'"', b'\\'] {
+                let mut s = vec![b'"'];
+                s.extend(std::iter::repeat(b'a').take(pos));
+                s.push(special);
+                while s.len() < total + 1 { s.push(b'a'); }
+                s.push(b'"');
+                g.emit(format!("quote {}", hex(&s)));
+                g.emit(format!("quotefb {}", hex(&s)));
+            }
+        }
+    }
+    g.emit("splitfb -".to_string());
+    g.emit("quotefb -".to_string());
+}
+
+/// structured documents under several layouts: layout independence, faithfulness, reuse
+fn gen_docs(g: &mut Gen, n: usize) {
+    let lay = LayoutCfg::full();
+    for _ in 0..n {
+        let d = gen_lexdoc(g);
+        let canon = render_canonical(&d.lex);
+        let a = render_layout(&mut g.rng, &lay, &d.lex);
+        let b = render_layout(&mut g.rng, &lay, &d.lex);
+        let expected = et_string(&d.tape);
+        if d.first_field_op { g.count("doc:first-field-operator"); }
+        g.count(&format!("doc:bytes:{}", match canon.len() { 0 => "0", 1..=31 => "1-31", 32..=127 => "32-127", 128..=511 => "128-511", _ => "512+" }));
+        g.emit(format!("tfaith {} {}", hex(&canon), expected));
+        g.emit(format!("tlay {} {} {}", hex(&a), hex(&b), hex(&canon)));
+        g.emit(format!("ttapeoff {}", hex(&a)));
+        if g.rng.chance(1, 3) {
+            let prev = gen_lexdoc(g);
+            let prev_bytes = render_layout(&mut g.rng, &lay, &prev.lex);
+            g.emit(format!("treuse {} {}", hex(&prev_bytes), hex(&b)));
+        }
+    }
+}
+
+/// scalar lengths swept across 1..40 with 0..20 trailing bytes and left padding 0..32
+fn gen_alignment(g: &mut Gen) {
+    for len in 1..=40usize {
+        for trailing in [0usize, 1, 2, 14, 15, 16, 17, 18, 20] {
+            let pad = g.rng.below(33);
+            let key: Vec<u8> = (0..len).map(|i| b'a' + (i % 26) as u8).collect();
+            let mut s = vec![b' '; pad];
+            s.extend_from_slice(&key);
+            s.push(b'=');
+            s.push(b'"');
+            s.extend_from_slice(&key);
+            s.push(b'"');
+            s.extend(std::iter::repeat(b' ').take(trailing));
+            g.emit(format!("ttapeoff {}", hex(&s)));
+            let mut s2 = vec![b'\n'; pad];
+            s2.extend_from_slice(&key);
+            s2.extend_from_slice(b"!=");
+            s2.extend_from_slice(&key);
+            s2.extend(std::iter::repeat(b'\n').take(trailing));
+            g.emit(format!("ttapeoff {}", hex(&s2)));
+        }
+    }
+}
+
+fn malformed(g: &mut Gen) -> Vec<u8> {
+    let lay = LayoutCfg::full();
+    match g.rng.below(10) {
+        0..=4 => {
+            let d = gen_lexdoc(g);
+            let base = if g.rng.chance(1, 2) { render_canonical(&d.lex) } else { render_layout(&mut g.rng, &lay, &d.lex) };
+            g.count("malformed:mutated-doc");
+            mutate(&mut g.rng, &base, TEXT_ALPHABET)
+        }
+        5 | 6 => { g.count("malformed:random-text"); random_text(&mut g.rng, 24) }
+        7 => { g.count("malformed:random-text-long"); random_text(&mut g.rng, 80) }
+        8 => {
+            // tolerated malformations: stray closers, a missing closer, operators in arrays, parameter blocks cut short
+            g.count("malformed:tolerated");
+            let frag: [&[u8]; 16] = [b"a=b", b"}", b"{", b"a={b=c", b"a={1 2", b"[[x] a=b", b"[[x]", b"]", b"a={b=c d}", b"a={b c=d}", b"x={1 =2}", b"{}", b"a=rgb{1 2 3}", b"a = { {} b=c }", b"@[x", b"\"q"];
+            let k = 1 + g.rng.below(4);
+            let mut v = vec![];
+            for _ in 0..k { let f: &[u8] = frag[g.rng.below(frag.len())]; v.extend_from_slice(f); v.push(*g.rng.pick(b"  \n}=")); }
+            v
+        }
+        _ => {
+            g.count("malformed:truncated-doc");
+            let d = gen_lexdoc(g);
+            let mut base = render_layout(&mut g.rng, &lay, &d.lex);
+            let p = g.rng.below(base.len() + 1);
+            base.truncate(p);
+            base
+        }
+    }
+}
+
+/// exhaustive short strings over a small significant alphabet
+fn gen_exhaustive(g: &mut Gen, maxlen: usize) {
+    let alpha: &[u8] = b"a={}\" #[]!<@\\;";
+    let mut cur: Vec<usize> = vec![];
+    // all strings of length 0..=maxlen
+    for len in 0..=maxlen {
+        cur.clear();
+        cur.resize(len, 0);
+        loop {
+            let s: Vec<u8> = cur.iter().map(|&i| alpha[i]).collect();
+            g.emit(format!("wftext {}", hex(&s)));
+            g.emit(format!("ttape {}", hex(&s)));
+            let mut k = len;
+            let mut done = true;
+            while k > 0 {
+                k -= 1;
+                cur[k] += 1;
+                if cur[k] < alpha.len() { done = false; break; }
+                cur[k] = 0;
+            }
+            if done { break; }
+        }
+    }
+}
+
+pub fn gen_c01(g: &mut Gen) {
+    let n_docs = g.budget(1500, 60_000);
+    gen_docs(g, n_docs);
+    gen_alignment(g);
+    let n_hooks = g.budget(1500, 100_000);
+    gen_hooks(g, n_hooks);
+    let n_mal = g.budget(4000, 400_000);
+    for _ in 0..n_mal {
+        let m = malformed(g);
+        g.emit(format!("ttape {}", hex(&m)));
+    }
+}
+
+/// C06 (text half): any input; emphasis on tolerated malformations
+pub fn gen_wf(g: &mut Gen) {
+    let lay = LayoutCfg::full();
+    let n = g.budget(2500, 300_000);
+    for i in 0..n {
+        let bytes = if i % 3 == 0 {
+            let d = gen_lexdoc(g);
+            render_layout(&mut g.rng, &lay, &d.lex)
+        } else {
+            malformed(g)
+        };
+        g.emit(format!("wftext {}", hex(&bytes)));
+    }
+    let maxlen = g.budget(3, 5);
+    gen_exhaustive(g, maxlen);
+}
+
+/// C19 (text tape part): every prefix of well-formed documents
+pub fn gen_cut(g: &mut Gen) {
+    let lay = LayoutCfg { max_trailing: 3, ..LayoutCfg::full() };
+    let n = g.budget(250, 20_000);
+    for i in 0..n {
+        let d = gen_lexdoc(g);
+        let bytes = if i % 2 == 0 { render_canonical(&d.lex) } else { render_layout(&mut g.rng, &lay, &d.lex) };
+        if bytes.len() > 400 { continue; }
+        g.count("cut:doc");
+        g.emit(format!("tcut {}", hex(&bytes)));
+    }
+}
+
+pub fn gen(g: &mut Gen) {
+    gen_c01(g);
+    gen_wf(g);
+    gen_cut(g);
+}
+
+// ---------------------------------------------------------------------------------------
+// exec
+
+fn content_line(d: &[u8]) -> String { tape_line(d, false) }
+
+pub fn exec(w: &[&str], obs: &mut Obs) -> Option<String> {
+    let case = w.join(" ");
+    match w {
+        ["ttape", h] => {
+            let d = unhex(h)?;
+            count_tape(obs, &d);
+            Some(tape_line(&d, false))
+        }
+        ["ttapeoff", h] => {
+            let d = unhex(h)?;
+            count_tape(obs, &d);
+            Some(tape_line(&d, true))
+        }
+        ["tfaith", h, expected] => {
+            let d = unhex(h)?;
+            count_tape(obs, &d);
+            let r = tape_line(&d, false);
+            let want = format!("ok {} bom:0", expected);
+            if r != want {
+                obs.violation("faithful", &case, &format!("tape of the canonical rendering is {} but the document's tape is {}", r, want));
+            } else {
+                obs.count("faithful:ok");
+            }
+            Some(r)
+        }
+        ["tlay", ha, hb, hc] => {
+            let (a, b, c) = (unhex(ha)?, unhex(hb)?, unhex(hc)?);
+            let (ra, rb, rc) = (content_line(&a), content_line(&b), content_line(&c));
+            // the BOM flag is a property of the layout, not of the document
+            let strip = |s: &str| s.trim_end_matches("bom:1").trim_end_matches("bom:0").to_string();
+            let eq = strip(&ra) == strip(&rc) && strip(&rb) == strip(&rc);
+            if !eq {
+                obs.violation("layout", &case, &format!("A: {} | B: {} | canonical: {}", ra, rb, rc));
+            } else {
+                obs.count("layout:ok");
+            }
+            if a.starts_with(&[0xef, 0xbb, 0xbf]) != ra.ends_with("bom:1") && ra.starts_with("ok") {
+                obs.violation("bom-flag", &case, &ra);
+            }
+            Some(format!("eq:{} {}", eq as u8, rc))
+        }
+        ["treuse", hp, h] => {
+            let prev = unhex(hp)?;
+            let d = unhex(h)?;
+            let fresh = tape_line(&d, true);
+            let mut tape = TextTape::new();
+            let _ = TextTape::parser().parse_slice_into_tape(&prev, &mut tape);
+            obs.count(&format!("reuse:prev-tokens:{}", if tape.tokens().is_empty() { "0" } else { "some" }));
+            let reused = match TextTape::parser().parse_slice_into_tape(&d, &mut tape) {
+                Ok(()) => format!("ok {} bom:{}", show::text_tape_offsets(&d, tape.tokens()), tape.utf8_bom() as u8),
+                Err(e) => err_kind(&e).to_string(),
+            };
+            if reused != fresh {
+                obs.violation("reuse", &case, &format!("reused: {} fresh: {}", reused, fresh));
+            }
+            Some(tape_line(&d, false))
+        }
+        ["split", h] => {
+            let d = unhex(h)?;
+            if d.is_empty() { return Some("panic".into()); }
+            let r = hooks::split_at_scalar(&d);
+            let f = hooks::split_at_scalar_fallback(&d);
+            if r != f {
+                obs.violation("split-blocks", &case, &format!("split_at_scalar {:?} fallback {:?}", r, f));
+            }
+            obs.count(if d.len() > 16 { "split:block-path" } else { "split:short" });
+            Some(format!("{} {}", r.0, r.1))
+        }
+        ["splitfb", h] => {
+            let d = unhex(h)?;
+            if d.is_empty() { return Some("panic".into()); }
+            let r = hooks::split_at_scalar_fallback(&d);
+            Some(format!("{} {}", r.0, r.1))
+        }
+        ["quote", h] => {
+            let d = unhex(h)?;
+            if d.is_empty() { return Some("panic".into()); }
+            let r = hooks::parse_quote_scalar(&d);
+            let f = hooks::parse_quote_scalar_fallback(&d);
+            if r != f {
+                obs.violation("quote-blocks", &case, &format!("parse_quote_scalar {:?} fallback {:?}", r, f));
+            }
+            obs.count(match r { Some(_) => "quote:ok", None => "quote:err" });
+            Some(match r { Some((a, b)) => format!("{} {}", a, b), None => "err".into() })
+        }
+        ["quotefb", h] => {
+            let d = unhex(h)?;
+            let r = hooks::parse_quote_scalar_fallback(&d);
+            Some(match r { Some((a, b)) => format!("{} {}", a, b), None => "err".into() })
+        }
+        ["wftext", h] => {
+            let d = unhex(h)?;
+            count_tape(obs, &d);
+            match TextTape::from_slice(&d) {
+                Ok(t) => match structural_defect(&d, t.tokens()) {
+                    None => Some("wf:1".into()),
+                    Some(why) => {
+                        obs.violation("unsound-tape", &case, &format!("{} in {}", why, show::text_tape_offsets(&d, t.tokens())));
+                        Some("wf:0".into())
+                    }
+                },
+                Err(_) => Some("err".into()),
+            }
+        }
+        ["tcut", h] => {
+            let d = unhex(h)?;
+            let full = TextTape::from_slice(&d);
+            let mut parts = Vec::with_capacity(d.len() + 1);
+            for k in 0..=d.len() {
+                match TextTape::from_slice(&d[..k]) {
+                    Ok(t) => {
+                        parts.push(format!("ok:{}", t.tokens().len()));
+                        obs.count("cut:prefix-ok");
+                        if let Some(why) = structural_defect(&d[..k], t.tokens()) {
+                            obs.violation("unsound-tape", &case, &format!("prefix {}: {}", k, why));
+                        }
+                        if let Ok(f) = &full {
+                            if let Some(why) = prefix_inconsistent(&d, k, t.tokens(), f.tokens()) {
+                                obs.violation("cut-inconsistent", &case, &format!("prefix {}: {}; prefix tape {} full tape {}", k, why, show::text_tape_offsets(&d, t.tokens()), show::text_tape_offsets(&d, f.tokens())));
+                            }
+                        }
+                    }
+                    Err(_) => { parts.push("err".to_string()); obs.count("cut:prefix-err"); }
+                }
+            }
+            Some(parts.join(","))
+        }
+        _ => None,
+    }
+}
+
+// ---------------------------------------------------------------------------------------
+// measured tables
+
 pub fn tables() -> String {
-    String::new()
+    let mut s = String::new();
+    s.push_str(&crate::tables::emit_bool_table(
+        "boundaryTab",
+        "`data::is_boundary(b)` for every byte (hook `verif_hooks::is_boundary`)",
+        |b| hooks::is_boundary(b),
+    ));
+    s.push('\n');
+    // The SSE2 block path of split_at_scalar.  After the block loop the fallback rescans from the
+    // start, so a byte the blocks miss is only observable through a LATER byte the blocks do see:
+    // [a, b, s, a×30] returns 1 when the blocks see `b`, and 2 when they miss `b` but see the
+    // sentinel `s`.  `b` is in the SSE set iff no table-boundary sentinel makes the answer 2
+    // (probed in the first block and in the second block).
+    let sentinels: Vec<u8> = (0..=255u8).filter(|b| hooks::is_boundary(*b)).collect();
+    let sse = |b: u8| -> bool {
+        let mut seen = true;
+        for &sn in sentinels.iter().filter(|&&x| x != b) {
+            for lead in [1usize, 20] {
+                let mut v = vec![b'a'; lead];
+                v.push(b);
+                v.push(sn);
+                v.extend_from_slice(&[b'a'; 30]);
+                let (len, _) = hooks::split_at_scalar(&v);
+                if len != lead { seen = false; }
+            }
+        }
+        // a byte nobody treats as a boundary must also be refused when no sentinel follows
+        let mut v = vec![b'a'; 20];
+        v.push(b);
+        v.extend_from_slice(&[b'a'; 30]);
+        if hooks::split_at_scalar(&v).0 != 20 { seen = false; }
+        seen
+    };
+    s.push_str(&crate::tables::emit_bool_table(
+        "sseBoundary",
+        "bytes the 16-byte block path of `split_at_scalar` stops at (probed with a sentinel behind the byte, first and second block)",
+        sse,
+    ));
+    s.push('\n');
+    let toks = |d: &[u8]| TextTape::from_slice(d).ok().map(|t| show::text_tape(t.tokens()));
+    let ws = |b: u8| -> bool {
+        let want_kv = toks(b"a=1");
+        let want_arr = toks(b"x={1 2}");
+        toks(&[b'a', b' ', b, b'=', b'1']) == want_kv
+            && toks(&[b'a', b'=', b, b'1']) == want_kv
+            && toks(&[b'x', b'=', b'{', b'1', b' ', b, b'2', b'}']) == want_arr
+    };
+    s.push_str(&crate::tables::emit_bool_table(
+        "wsTape",
+        "single bytes `skip_ws_t` of the text tape parser skips (probed through TextTape::from_slice in three parser states)",
+        ws,
+    ));
+    s.push('\n');
+    s
 }
